@@ -66,6 +66,9 @@ impl Check for C06Check {
     }
 
     fn generate(&self, seed: u64, index: u64, tier: Tier) -> Case {
+        if let Some(c) = crate::surface::case_for("C06", seed, index) {
+            return c;
+        }
         let mut st = streams(seed, "C06", index);
         let infinite = st.workload.chance(1, 5);
         let mut o = Opts::finite_small();
@@ -105,6 +108,9 @@ impl Check for C06Check {
     }
 
     fn valid(&self, case: &Case) -> bool {
+        if crate::surface::is_surface(case) {
+            return crate::surface::valid(case);
+        }
         valid::program_ok(&case.program)
             && !case.program.any(|g| {
                 matches!(
@@ -131,7 +137,7 @@ impl Check for C06Check {
     }
 
     fn rule(&self) -> String {
-        "case = (search program over ==, fresh, conj, conde/disj, closure, for, member/append/cons, \
+        "Every 64th case is one of the macro-written surface programs for this property (sim/src/surface.rs: literal true/false clauses in nested conde, fall-through clauses, match arms, bracketed conjunctions) compared as a multiset with a hand-listed expectation, under the same schedules. case = (search program over ==, fresh, conj, conde/disj, closure, for, member/append/cons, \
          program-defined recursive relations, simulated leaves) x (iteration-order policy, yield sites/rate) ; \
          finite trees: answer multiset of the interleaving run = reference interpreter R1 = same program under dfs{}; \
          infinite programs: every answer of a bounded prefix is an answer per R1. \
@@ -141,6 +147,9 @@ impl Check for C06Check {
     }
 
     fn run(&self, case: &Case) -> CaseResult {
+        if crate::surface::is_surface(case) {
+            return crate::surface::run_case(case);
+        }
         let mut facts = Facts::default();
         fault_facts(&case.program, &mut facts);
         let p = &case.program;
